@@ -424,7 +424,14 @@ def one_run(mon, rng, world, per_node, desc, batch, quick):
     # in a third of the runs the tallest node broadcasts a transaction BEFORE the others have caught up (they must refuse
     # it: it spends an output of a block they lack); the same transaction is broadcast again once all share a head
     run.early_tx = None
-    if rng.random() < 0.35:
+    if rng.random() < 0.5:
+        # (first let the links come up -- greetings only, in small steps -- so that the broadcast reaches the neighbours)
+        for _ in range(400):
+            if run.links_up() and any(n.lp.network_manager.get_active_peers() for n in run.nodes):
+                break
+            acts = run.net.enabled(timers=True)
+            hello = [a for a in acts if a[0] in ("accept", "step")] or acts
+            run.net.run_action(rng.choice(hello if rng.random() < 0.5 else acts))
         tall = max(run.nodes, key=lambda n: n.lp.chain_manager.coinstate.head().height)
         hid = tall.lp.chain_manager.coinstate.current_chain_hash
         cbid = world.chain.blocks[hid].txs[0].id()
@@ -438,6 +445,11 @@ def one_run(mon, rng, world, per_node, desc, batch, quick):
                 del run.relays[nb:nb + 1]
                 run.early_tx = (t0, tall)
                 c["transactions_broadcast_before_convergence"] = c.get("transactions_broadcast_before_convergence", 0) + 1
+                run.net.settle(None, max_actions=300)
+                lacking = [n for n in run.nodes if n is not tall and hid not in n.lp.chain_manager.coinstate.block_by_hash]
+                if lacking and tall.lp.network_manager.get_active_peers():
+                    c["early_transactions_offered_to_a_node_lacking_the_spent_block"] = c.get(
+                        "early_transactions_offered_to_a_node_lacking_the_spent_block", 0) + 1
     run.phase1(rng.choice([0, 20, 100, 400]) if quick else rng.choice([0, 50, 300, 1500]))
     run.check_escaped("random phase")
     rounds = run.drain(sum(desc["forks"]) + desc["trunk"])
@@ -574,6 +586,8 @@ def finalize(m, tier):
                    ("runs_with_all_nodes_on_one_host", c.get("runs_with_all_nodes_on_one_host", 0), 60),
                    ("runs_with_maximum_size_block", c.get("runs_with_maximum_size_block", 0), 4),
                    ("early_transactions_broadcast_again", c.get("early_transactions_broadcast_again", 0), 30),
+                   ("early_transactions_offered_to_a_node_lacking_the_spent_block",
+                    c.get("early_transactions_offered_to_a_node_lacking_the_spent_block", 0), 5),
                    ("systematic_runs", c.get("systematic_runs", 0), 3 * 4 ** 4)],
         "extra": {"bounded_restatement_R_base": R_BASE},
     }
